@@ -26,6 +26,7 @@ import (
 
 	"golang.org/x/sys/unix"
 
+	"github.com/panjf2000/gnet/v2/internal/vhook"
 	errorx "github.com/panjf2000/gnet/v2/pkg/errors"
 	"github.com/panjf2000/gnet/v2/pkg/logging"
 	"github.com/panjf2000/gnet/v2/pkg/queue"
@@ -97,8 +98,10 @@ func (p *Poller) Trigger(priority queue.EventPriority, fn queue.Func, param any)
 		// but that's tolerable because it ought to be a rare case.
 		p.urgentAsyncTaskQueue.Enqueue(task)
 	}
+	vhook.Gate("p.cas", p, 0)
 	if atomic.CompareAndSwapInt32(&p.wakeupCall, 0, 1) {
 		for {
+			vhook.Gate("p.efdwrite", p, 0)
 			_, err = unix.Write(p.efd, b)
 			if err == unix.EAGAIN {
 				_, _ = unix.Read(p.efd, p.efdBuf)
@@ -118,7 +121,9 @@ func (p *Poller) Polling(callback PollEventHandler) error {
 
 	msec := -1
 	for {
+		vhook.Gate("p.wait", p, msec)
 		n, err := unix.EpollWait(p.fd, el.events, msec)
+		vhook.Ev("p.woke", p, n, 0)
 		if n == 0 || (n < 0 && err == unix.EINTR) {
 			msec = -1
 			runtime.Gosched()
@@ -145,6 +150,7 @@ func (p *Poller) Polling(callback PollEventHandler) error {
 			doChores = false
 			task := p.urgentAsyncTaskQueue.Dequeue()
 			for ; task != nil; task = p.urgentAsyncTaskQueue.Dequeue() {
+				vhook.Ev("p.exec", p, 0, 0)
 				err = task.Exec(task.Param)
 				if errors.Is(err, errorx.ErrEngineShutdown) {
 					return err
@@ -155,15 +161,19 @@ func (p *Poller) Polling(callback PollEventHandler) error {
 				if task = p.asyncTaskQueue.Dequeue(); task == nil {
 					break
 				}
+				vhook.Ev("p.exec", p, 1, 0)
 				err = task.Exec(task.Param)
 				if errors.Is(err, errorx.ErrEngineShutdown) {
 					return err
 				}
 				queue.PutTask(task)
 			}
+			vhook.Gate("p.store0", p, 0)
 			atomic.StoreInt32(&p.wakeupCall, 0)
+			vhook.Gate("p.recheck", p, 0)
 			if (!p.asyncTaskQueue.IsEmpty() || !p.urgentAsyncTaskQueue.IsEmpty()) && atomic.CompareAndSwapInt32(&p.wakeupCall, 0, 1) {
 				for {
+					vhook.Gate("p.efdwrite", p, 1)
 					_, err = unix.Write(p.efd, b)
 					if err == unix.EAGAIN {
 						_, _ = unix.Read(p.efd, p.efdBuf)
